@@ -381,8 +381,18 @@ func checkPlain(pc PlainCase) (key, msg string, out uint64) {
 			}
 		}
 		return "", "", core.Hash64(first)
-	case "purity":
-		s := pc.Spec.Build()
+	case "purity", "purity-nodates", "purity-emptymeta", "purity-nometa":
+		sp := pc.Spec
+		if pc.Kind != "purity" {
+			sp.Dates = false
+		}
+		s := sp.Build()
+		switch pc.Kind {
+		case "purity-emptymeta":
+			s.Metadata = &astisub.Metadata{}
+		case "purity-nometa":
+			s.Metadata = nil
+		}
 		// definitions and a cue whose optional parts are absent: a writer must not fill them in
 		s.Styles["zz-bare"] = &astisub.Style{ID: "zz-bare"}
 		s.Regions["zz-bare"] = &astisub.Region{ID: "zz-bare"}
@@ -552,6 +562,15 @@ func plainRun(c *core.Ctx) {
 	for _, sp := range specs(c.Tier) {
 		for _, w := range corpus.WriteFormats {
 			do(PlainCase{Kind: "purity", Spec: sp, Writer: w})
+		}
+	}
+	// metadata shapes: no dates (the STL writer takes them from the clock - it must not store them), no metadata
+	// fields at all, no metadata
+	for _, sp := range plainSpecs() {
+		for _, w := range corpus.WriteFormats {
+			for _, kind := range []string{"purity-nodates", "purity-emptymeta", "purity-nometa"} {
+				do(PlainCase{Kind: kind, Spec: sp, Writer: w})
+			}
 		}
 	}
 	for _, sp := range plainSpecs() {
